@@ -169,7 +169,47 @@ class SeqThread(Native):
         return False
 
 
+class SharedQueue(Native):
+    """multiprocessing.Queue stand-in: shared between parent and child (unlike a queue.Queue given to a process)"""
+
+    import queue as _q
+
+    def __init__(self):
+        self.items = []
+
+    def put(self, eng, x, *a, **k):
+        self.items.append(x)
+
+    def put_nowait(self, eng, x):
+        self.items.append(x)
+
+    def empty(self, eng):
+        return not self.items
+
+    def get(self, eng, *a, **k):
+        if not self.items:
+            raise ModelRaise("Empty", cls=self._q.Empty)
+        return self.items.pop(0)
+
+    def get_nowait(self, eng):
+        return self.get(eng)
+
+
+class SeqProcess(SeqThread):
+    """multiprocessing.Process stand-in: like SeqThread, plus the one thing that distinguishes a process here - the child
+    works on COPIES of its arguments; a plain queue.Queue handed to it is not shared with the parent (only multiprocessing's
+    own primitives are).  What the child does to files is, of course, visible."""
+
+    def start(self, eng):
+        self.args = tuple(ExcQueue() if isinstance(a, ExcQueue) else a for a in self.args)
+        return SeqThread.start(self, eng)
+
+
 class ExcQueue(Native):
+    import queue as _q
+
+    isa = (_q.Queue,)
+
     def __init__(self):
         self.items = []
 
@@ -183,7 +223,12 @@ class ExcQueue(Native):
         return len(self.items) == 0
 
     def get(self, eng, *a, **k):
+        if not self.items:
+            raise ModelRaise("Empty", cls=self._q.Empty)
         return self.items.pop(0)
+
+    def get_nowait(self, eng):
+        return self.get(eng)
 
 
 class World:
@@ -272,7 +317,8 @@ def install_read_stubs(eng, world, memory_limit=None):
     import threading
 
     eng.models.reg(threading.Thread, lambda e_, **k: SeqThread(**k))
-    eng.models.reg(multiprocessing.Process, lambda e_, **k: SeqThread(**k))
+    eng.models.reg(multiprocessing.Process, lambda e_, **k: SeqProcess(**k))
+    eng.models.reg(multiprocessing.Queue, lambda e_, *a, **k: SharedQueue())
     eng.models.reg(queue.Queue, lambda e_, *a: ExcQueue())
 
     def open_by_name(e_, name, mode="r", *a, **k):
@@ -286,7 +332,7 @@ def install_read_stubs(eng, world, memory_limit=None):
 
 
 def setup_read(eng, entries, layout, progress="live", name=None, password=None, stall_limit=3, intact=True,
-               consume="arbitrary"):
+               consume="arbitrary", mp=False):
     """open a reference-written archive through the real _real_get_contents and attach the read-side stubs"""
     from vf.harness import refwriter as W
     from vf.harness.session import open_for_read
@@ -297,7 +343,7 @@ def setup_read(eng, entries, layout, progress="live", name=None, password=None, 
     data_len = layout.get("packpos", 0)
     for p in layout.get("packsizes", []):
         data_len = eng.binop(ast.Add(), data_len, p)
-    szf, fp = open_for_read(eng, items, data_len, password=password, name=name)
+    szf, fp = open_for_read(eng, items, data_len, password=password, name=name, mp=mp)
     world.items = items
     from vf.harness.session import LayoutFile
 
